@@ -2,7 +2,7 @@
 C18 — ADC is a true n-bit quantiser; shortest_int returns a shortest covering interval.
 Property theorems only (helper lemmas: Lemmas/Quant.lean).  Models: `Quant.shortestIntP` / `Quant.shortestInt`,
 `Quant.quantise` / `Quant.adc` (Model/Quant.lean, exact `Rat`), with the literals of the source
-(`100`, `1e-10`, `//2`, `99.99`) translated into `Gen/Quant.lean` on every run.
+(`100`, the relative tie tolerance `1e-10`, `//2`, `99.99`) translated into `Gen/Quant.lean` on every run.
 
 The ADC theorems carry the explicit guard `V_min < V_max`: a constant record has no full-scale range
 (the code divides 0 by 0 there); it is an excluded point (`quantise_degenerate`).
@@ -49,23 +49,44 @@ theorem shortest_is_order_pair (div tol : Rat) (cdiv : Nat) (p : Rat) (data : Li
   rw [h1, h2]
   exact sorted_getElem_le (sort_sorted data) i _ (by omega) _
 
-/-- **shortest_minimal**: no other pair of order statistics `lag` apart is closer together by `tol` or more -/
-theorem shortest_minimal (div tol : Rat) (cdiv : Nat) (p : Rat) (data : List Rat) (lo hi : Rat)
+/-- **shortest_minimal**: no other pair of order statistics `lag` apart is closer together by more than the RELATIVE
+    tie tolerance: `hi − lo ≤ (1 + tol) · w` for the width `w` of every such pair (`tol = 1e-10` in the source) -/
+theorem shortest_minimal (div tol : Rat) (cdiv : Nat) (p : Rat) (data : List Rat) (lo hi : Rat) (htol : 0 ≤ tol)
     (h : shortestIntP div tol cdiv p data = .ok (lo, hi)) (j : Nat)
     (hj : j + lagOf div data.length p < (sort data).length) :
-    hi - lo < (sort data)[j + lagOf div data.length p] - (sort data)[j]'(by omega) + tol := by
-  obtain ⟨i, hi', h1, h2, hmin⟩ := pick_spec tol cdiv _ _ lo hi (shortestIntP_ok h).1
+    hi - lo ≤ (1 + tol) * ((sort data)[j + lagOf div data.length p] - (sort data)[j]'(by omega)) := by
+  obtain ⟨i, hi', h1, h2, m, ⟨k, hk, hmk⟩, hmin, hclose⟩ := pick_spec tol cdiv _ _ lo hi (shortestIntP_ok h).1
+  have hm0 : 0 ≤ m := by
+    rw [hmk]
+    have := sorted_getElem_le (sort_sorted data) k (k + lagOf div data.length p) (by omega) hk
+    linarith
+  rw [abs_of_nonneg hm0] at hclose
+  have hj' := hmin j hj
   rw [h1, h2]
-  exact hmin j hj
+  calc (sort data)[i + lagOf div data.length p] - (sort data)[i]'(by omega) ≤ m + tol * m := hclose
+    _ = (1 + tol) * m := by ring
+    _ ≤ (1 + tol) * _ := mul_le_mul_of_nonneg_left hj' (by linarith)
 
-/-- when distinct widths differ by at least `tol` (e.g. integer data, `tol ≤ 1`), the returned width is the minimum -/
-theorem shortest_minimal_exact (div tol : Rat) (cdiv : Nat) (p : Rat) (data : List Rat) (lo hi : Rat)
+/-- when some pair of order statistics `lag` apart coincides (width 0, e.g. heavy ties), the returned width is 0 too:
+    ties are exact at zero width -/
+theorem shortest_minimal_zero (div tol : Rat) (cdiv : Nat) (p : Rat) (data : List Rat) (lo hi : Rat) (htol : 0 ≤ tol)
+    (h : shortestIntP div tol cdiv p data = .ok (lo, hi)) (j : Nat)
+    (hj : j + lagOf div data.length p < (sort data).length)
+    (hz : (sort data)[j + lagOf div data.length p] = (sort data)[j]'(by omega)) : hi = lo := by
+  have hmin := shortest_minimal div tol cdiv p data lo hi htol h j hj
+  obtain ⟨_, _, _, _, hle⟩ := shortest_is_order_pair div tol cdiv p data lo hi h
+  rw [hz, sub_self, mul_zero] at hmin
+  linarith
+
+/-- when no other width lies strictly within the relative tolerance above the returned one, the returned width is the
+    minimum -/
+theorem shortest_minimal_exact (div tol : Rat) (cdiv : Nat) (p : Rat) (data : List Rat) (lo hi : Rat) (htol : 0 ≤ tol)
     (h : shortestIntP div tol cdiv p data = .ok (lo, hi)) (j : Nat)
     (hj : j + lagOf div data.length p < (sort data).length)
     (hgap : ∀ w, w = (sort data)[j + lagOf div data.length p] - (sort data)[j]'(by omega) →
-      hi - lo ≤ w ∨ tol ≤ hi - lo - w) :
+      hi - lo ≤ w ∨ tol * w < hi - lo - w) :
     hi - lo ≤ (sort data)[j + lagOf div data.length p] - (sort data)[j]'(by omega) := by
-  have := shortest_minimal div tol cdiv p data lo hi h j hj
+  have := shortest_minimal div tol cdiv p data lo hi htol h j hj
   rcases hgap _ rfl with h' | h'
   · exact h'
   · linarith
@@ -78,8 +99,8 @@ theorem shortest_covers (div tol : Rat) (cdiv : Nat) (p : Rat) (data : List Rat)
   rw [← (sort_perm data).countP_eq, h1, h2]
   exact count_between (sort_sorted data) i _ hi'
 
-/-- the call succeeds for every percentage `p ≥ 0` with `lag < len(data)` (positive tolerance, central index `//2`) -/
-theorem shortest_succeeds (div tol : Rat) (cdiv : Nat) (p : Rat) (data : List Rat) (hp : 0 ≤ p) (htol : 0 < tol)
+/-- the call succeeds for every percentage `p ≥ 0` with `lag < len(data)` (non-negative tolerance, central index `//2`) -/
+theorem shortest_succeeds (div tol : Rat) (cdiv : Nat) (p : Rat) (data : List Rat) (hp : 0 ≤ p) (htol : 0 ≤ tol)
     (hc : 2 ≤ cdiv) (hl : lagOf div data.length p < data.length) :
     ∃ r, shortestIntP div tol cdiv p data = .ok r := by
   unfold shortestIntP
